@@ -81,7 +81,7 @@ def run(ctx):
     ctx.ob("T3", WB, "Timeout", "wait = stb & cyc & ~ack", ok, "" if ok else f"timer.wait <= {w[0].v if w else '?'}", w[0].line if w else 0)
     for tgt, want in (("master.ack", "1"), ("self.error", "1"), ("master.dat_r", "2 ** len(master.dat_w) - 1")):
         ds = fx.find(domain="comb", target=tgt)
-        ok = len(ds) == 1 and ds[0].v == want and B.equivalent(B.guard_formula(ds[0].guards), B.A("timer.done"))
+        ok = len(ds) == 1 and ds[0].v == want and B.equivalent(ds[0].eff(), B.A("timer.done"))
         ctx.ob("T3", WB, "Timeout", f"{tgt} = {want} on expiry", ok,
                "" if ok else f"{tgt} <= {ds[0].v if ds else '(none)'} under {ds[0].gtext() if ds else '-'}", ds[0].line if ds else 0)
     ti = [i for i in fx.insts if i.cls == "WaitTimer" and i.call is not None]
@@ -115,11 +115,11 @@ def run(ctx):
             ctx.ob("T3", rel, cls, f"{kind}: wait condition = request pending without ready", ok,
                    "" if ok else f"{timer}.wait <= {w[0].v if w else '?'}", w[0].line if w else 0)
             er = [a for a in fx.find(domain="comb", target=f"{kind}_error") if a.state == st("WAIT")]
-            ok = len(er) == 1 and er[0].v == "1" and B.equivalent(B.guard_formula(er[0].guards), B.from_expr(f"{timer}.done & {timer}.wait"))
+            ok = len(er) == 1 and er[0].v == "1" and B.equivalent(er[0].eff(), B.from_expr(f"{timer}.done & {timer}.wait"))
             ctx.ob("T3", rel, cls, f"{kind}: error pulse on expiry while still waiting", ok,
                    "" if ok else f"{kind}_error under {er[0].gtext() if er else '?'}", er[0].line if er else 0)
             tr = [t for t in fx.trans if t.fsm == info.id and t.src == "WAIT"]
-            ok = len(tr) == 1 and tr[0].dst == "RESPOND" and B.equivalent(B.guard_formula(tr[0].guards), B.from_expr(f"{timer}.done & {timer}.wait"))
+            ok = len(tr) == 1 and tr[0].dst == "RESPOND" and B.equivalent(tr[0].eff(), B.from_expr(f"{timer}.done & {timer}.wait"))
             ctx.ob("T3", rel, cls, f"{kind}: WAIT -> RESPOND on done & wait only", ok,
                    "" if ok else f"{[(t.dst, t.gtext()) for t in tr]}: requests answered in time would be disturbed", tr[0].line if tr else 0)
             # RESPOND
@@ -146,7 +146,7 @@ def run(ctx):
                 ctx.ob("T3", rel, cls, f"{kind}: RESPOND {t} = {want}", ok,
                        "" if ok else f"{t} <= {d[0].v if d else '(not driven)'}", d[0].line if d else 0)
             tr = [t for t in fx.trans if t.fsm == info.id and t.src == "RESPOND"]
-            ok = len(tr) == 1 and tr[0].dst == "WAIT" and B.equivalent(B.guard_formula(tr[0].guards), B.from_expr(exit_want))
+            ok = len(tr) == 1 and tr[0].dst == "WAIT" and B.equivalent(tr[0].eff(), B.from_expr(exit_want))
             ctx.ob("T3", rel, cls, f"{kind}: RESPOND left only on the response handshake", ok,
                    "" if ok else f"{[(t.dst, t.gtext()) for t in tr]}", tr[0].line if tr else 0)
         ti = [i for i in fx.insts if i.cls == "WaitTimer" and i.call is not None]
